@@ -26,6 +26,11 @@ def valid_matcher(t):
 def build_case(rnd, n_events=40, cmds=None, cmd_rate=0.0, config=None, **kw):
     """returns dict(config, events (model-shaped), impl_events, dialect)"""
     d, items = world.gen_history(rnd, n_events=n_events, **kw)
+    return case_from_items(rnd, d, items, cmds=cmds, cmd_rate=cmd_rate, config=config)
+
+
+def case_from_items(rnd, d, items, cmds=None, cmd_rate=0.0, config=None):
+    """the session case (model events + the lines the implementation reads) of a generated history"""
     events = []
     impl = []
     for it in items:
